@@ -45,7 +45,7 @@ def dump(typ, val, tb, include_local_traceback, include_local_version):
               traceback text)``. This tuple can be safely passed to
               :func:`brine.dump <rpyc.core.brine.dump>`
     """
-    if typ is StopIteration:
+    if typ is StopIteration and not val.args:
         return consts.EXC_STOP_ITERATION  # optimization
     if type(typ) is str:
         return typ
